@@ -7,6 +7,7 @@ import (
 	"os"
 	"os/exec"
 	"path/filepath"
+	"runtime"
 	"strings"
 	"time"
 )
@@ -176,6 +177,14 @@ func trunc(s string, n int) string {
 func (rp *replayer) run(bin, replayFile string, timeout time.Duration, env ...string) (string, error) {
 	cmd := exec.Command(bin, "-test.run", "^TestReplay$", "-test.timeout", timeout.String(), "-test.v")
 	cmd.Env = append(append(os.Environ(), "VERIF_REPLAY="+replayFile), env...)
+	if n := replayNumCPU(replayFile); n > 0 && n < runtime.NumCPU() {
+		// the instance fixes the number of CPUs the code sees: pin the native process accordingly
+		// (runtime.NumCPU reads the affinity mask at start-up)
+		if ts, err := exec.LookPath("taskset"); err == nil {
+			cmd = exec.Command(ts, "-c", fmt.Sprintf("0-%d", n-1), bin, "-test.run", "^TestReplay$", "-test.timeout", timeout.String(), "-test.v")
+			cmd.Env = append(append(append(os.Environ(), "VERIF_REPLAY="+replayFile), env...), fmt.Sprintf("GOMAXPROCS=%d", n))
+		}
+	}
 	cmd.Dir = rp.tmp
 	var buf bytes.Buffer
 	cmd.Stdout = &buf
@@ -298,4 +307,19 @@ func replayMain(file, verif string) int {
 		return 2
 	}
 	return 0
+}
+
+// replayNumCPU returns the instance parameter numcpu of a replay file (0 if absent).
+func replayNumCPU(replayFile string) int {
+	b, err := os.ReadFile(replayFile)
+	if err != nil {
+		return 0
+	}
+	var r struct {
+		Params map[string]int `json:"params"`
+	}
+	if json.Unmarshal(b, &r) != nil {
+		return 0
+	}
+	return r.Params["numcpu"]
 }
